@@ -21,6 +21,8 @@ package engine
 
 import (
 	"fmt"
+	"os"
+	"strconv"
 	"sync"
 	"syscall"
 	"time"
@@ -95,6 +97,7 @@ var SiteNames = []string{
 	"struct.size", "struct.descriptor", "map.size", "map.append", "slice.size", "slice.encode", "json.size", "json.encode",
 	"map.iter1", "map.iterN", "map.iterEnd",
 	"auto.atomic", "auto.lock", "auto.call", "auto.spin",
+	"auto.onceWait", "auto.onceEnter", "auto.onceLeave",
 	"simreg.load", "simreg.storeOrSwap",
 	"op.begin", "op.end",
 }
@@ -106,7 +109,7 @@ const (
 
 var NumSites = len(SiteNames)
 
-var siteIter1, siteIterN, siteIterEnd, siteOpBegin, siteAutoSpin int
+var siteIter1, siteIterN, siteIterEnd, siteOpBegin, siteAutoSpin, siteOnceWait, siteOnceEnter, siteOnceLeave int
 
 var siteIndex = func() map[string]int {
 	m := make(map[string]int, len(SiteNames))
@@ -118,6 +121,7 @@ var siteIndex = func() map[string]int {
 	}
 	siteIter1, siteIterN, siteIterEnd, siteOpBegin = m["map.iter1"], m["map.iterN"], m["map.iterEnd"], m["op.begin"]
 	siteAutoSpin = m["auto.spin"]
+	siteOnceWait, siteOnceEnter, siteOnceLeave = m["auto.onceWait"], m["auto.onceEnter"], m["auto.onceLeave"]
 	return m
 }()
 
@@ -274,6 +278,7 @@ type Sim struct {
 	yields    [MaxTasks]int
 	iterDepth [MaxTasks]int // nesting of encode-side map iterations the task is inside
 	iterSupp  [MaxTasks]int // depth at which an iteration over more than one entry began (0 = none)
+	onceDepth [MaxTasks]int // how many once functions (sync.Once.Do) the task is inside
 	started   [MaxTasks]bool
 	cur       int
 	stepCount int
@@ -449,8 +454,8 @@ loop:
 				continue
 			}
 			idle++
-			if idle == 20 && !s.isFreeRun() {
-				// 2 s without a step: some task blocked for real. Let everybody run.
+			if idle == freeRunTicks && !s.isFreeRun() {
+				// no step for a while: some task blocked for real. Let everybody run.
 				s.goFreeRun()
 			}
 		}
@@ -571,7 +576,17 @@ func BeginSolo(limit int) { soloSteps, soloLimit, loopIters = 0, limit, 0 }
 var loopIters int
 
 const maxLoopIters = 50000000
-func EndSolo()            { soloLimit = 0 }
+
+// freeRunTicks x 100 ms without a yield from anybody: the task holding the
+// baton is blocked for real (in a primitive the simulator does not model).
+var freeRunTicks = func() int {
+	if n, err := strconv.Atoi(os.Getenv("VERIF_FREERUN_TICKS")); err == nil && n > 0 {
+		return n
+	}
+	return 8
+}()
+
+func EndSolo() { soloLimit = 0 }
 
 //go:norace
 func yieldHook(site string) {
@@ -627,7 +642,27 @@ func yieldHook(site string) {
 		}
 		return
 	case siteOpBegin:
-		s.iterDepth[t], s.iterSupp[t] = 0, 0
+		s.iterDepth[t], s.iterSupp[t], s.onceDepth[t] = 0, 0, 0
+	case siteOnceEnter:
+		s.onceDepth[t]++
+		return
+	case siteOnceLeave:
+		if s.onceDepth[t] > 0 {
+			s.onceDepth[t]--
+		}
+		s.progress++
+		return
+	case siteOnceWait:
+		// about to call sync.Once.Do: it would block for real while another task is
+		// inside a once function (the simulator does not tell Once objects apart:
+		// a task waits while any other task is inside any once function)
+		for s.otherInOnce(t) {
+			s.onYield(t, SiteMutexWait)
+			if s.freeRun {
+				return
+			}
+		}
+		id = SiteOther
 	}
 	if s.iterSupp[t] != 0 && id != SiteMutexWait && id != siteAutoSpin {
 		return
@@ -736,6 +771,16 @@ func (s *Sim) onDone(t int) {
 	}
 	s.cur = next
 	rawWrite(pipes[next][1])
+}
+
+//go:norace
+func (s *Sim) otherInOnce(t int) bool {
+	for i := 0; i < s.N; i++ {
+		if i != t && s.onceDepth[i] > 0 && s.state[i] == stReady {
+			return true
+		}
+	}
+	return false
 }
 
 //go:norace
